@@ -35,7 +35,9 @@ Inductive rv :=
 | VMark (e : ev)                         (* a user callback / an upstream subscription whose call is an observation: calling it
                                             (f(), or .unsubscribe()) appends e to the output *)
 | VMarkArg                               (* a user callback whose call with an item / an error appends Next item / Err error *)
-| VClosTok.                              (* a closure / function item that is only passed on (an operator's parameter) *)
+| VClosTok                               (* a closure / function item that is only passed on (an operator's parameter) *)
+| VSubTok (closed : bool) (e : ev).      (* a subscription behind a Box<dyn Subscription>: is_closed() answers `closed`,
+                                            unsubscribe() is an observed call (appends e) *)
 
 Definition env := list (string * rv).
 
@@ -151,6 +153,7 @@ Fixpoint place_of (e : rx) : option place :=
   | XField e' f => match place_of e' with Some (r, p) => Some (r, cat p [f]) | None => None end
   | XMeth e' m [] =>
       if String.eqb m "rc_deref_mut" || String.eqb m "rc_deref" || String.eqb m "as_mut" || String.eqb m "as_ref"
+         || String.eqb m "iter" || String.eqb m "iter_mut" || String.eqb m "into_iter"
       then place_of e' else None
   | _ => None
   end.
@@ -227,6 +230,13 @@ Definition set_place (fr : frame) (pl : place) (x : rv) : option frame :=
                   | None => None end
       | None => None
       end
+  end.
+
+(* the path inside self that a place denotes: directly, or through a local that names a place inside self *)
+Definition self_path (fr : frame) (pl : place) : option (list string) :=
+  match fst pl with
+  | None => Some (snd pl)
+  | Some x => match lookup x (flocals fr) with Some (VRef p0) => Some (cat p0 (snd pl)) | _ => None end
   end.
 
 (* ---- patterns *)
@@ -409,6 +419,12 @@ Definition builtin (m : string) (recv : rv) (args : list rv) : option (rv * rv *
       else None
   | VMark e0 =>
       if String.eqb m "unsubscribe" then match args with [] => Some (VUnit, recv, [e0]) | _ => None end else None
+  | VSubTok c e0 =>
+      if String.eqb m "unsubscribe" || String.eqb m "boxed_unsubscribe" then
+        match args with [] => Some (VUnit, VSubTok true e0, [e0]) | _ => None end
+      else if String.eqb m "is_closed" || String.eqb m "boxed_is_closed" then
+        match args with [] => same (VBool c) | _ => None end
+      else None
   | VSrc =>
       if String.eqb m "actual_subscribe" then match args with [o] => Some (o, recv, []) | _ => None end else None
   | VBool _ =>
@@ -643,6 +659,8 @@ Fixpoint eval_x (fuel : nat) (s : st) (e : rx) {struct fuel} : option (st * rv) 
           match args with [] => Some (s, VOptItem None) | _ => None end
         else if String.eqb p "Vec::new" || String.eqb p "VecDeque::new" || String.eqb p "HashSet::new" then
           match args with [] => Some (s, VItems []) | _ => None end
+        else if String.eqb p "drop" then
+          match args with [_] => Some (s, VUnit) | _ => None end          (* releasing a guard: the cells are modelled as their content *)
         else if String.eqb p "std::mem::take" || String.eqb p "mem::take" then
           match args with
           | [a] =>
@@ -700,6 +718,62 @@ Fixpoint eval_x (fuel : nat) (s : st) (e : rx) {struct fuel} : option (st * rv) 
             | None => None end
         | None => None end
     | XMeth r m args =>
+        if String.eqb m "for_each" || String.eqb m "all" || String.eqb m "retain" then
+          (* seq.into_iter().for_each(|x| body) / seq.iter().all(|x| body) / seq.retain(|x| body): the closure runs in the current
+             frame, once per element, in order; `all` stops at the first false *)
+          match args with
+          | [XClosure [p] body] =>
+              match eval_recv f s r m with
+              | Some ((fr', out'), pl, coll) =>
+                  let l := match coll with VSeq l => Some l | VItems q => Some (map VItem q) | _ => None end in
+                  match l with
+                  | Some l =>
+                      let run1 (s1 : st) (x : rv) : option (st * rv) :=
+                        let '(fr1, out1) := s1 in
+                        match bind_pat p x with
+                        | MYes b =>
+                            match eval_x f (push_locals fr1 b, out1) body with
+                            | Some ((fr2, out2), v) => Some ((leave_block fr1 fr2, out2), v)
+                            | None => None end
+                        | _ => None end in
+                      if String.eqb m "for_each" then
+                        match for_loop (fun s1 x => match run1 s1 x with Some (s2, _) => Some s2 | None => None end) l (fr', out') with
+                        | Some s2 => Some (s2, VUnit)
+                        | None => None end
+                      else if String.eqb m "all" then
+                        (fix go (l : list rv) (s1 : st) : option (st * rv) :=
+                           match l with
+                           | [] => Some (s1, VBool true)
+                           | x :: l' =>
+                               match run1 s1 x with
+                               | Some (s2, VBool true) => go l' s2
+                               | Some (s2, VBool false) => Some (s2, VBool false)
+                               | _ => None end
+                           end) l (fr', out')
+                      else
+                        (* retain: keep the elements for which the closure answers true; the place is updated *)
+                        match (fix go (l : list rv) (s1 : st) : option (st * list rv) :=
+                                 match l with
+                                 | [] => Some (s1, [])
+                                 | x :: l' =>
+                                     match run1 s1 x with
+                                     | Some (s2, VBool keep) =>
+                                         match go l' s2 with
+                                         | Some (s3, kept) => Some (s3, if keep then x :: kept else kept)
+                                         | None => None end
+                                     | _ => None end
+                                 end) l (fr', out') with
+                        | Some ((fr2, out2), kept) =>
+                            let newv := match kept with [] => VItems [] | _ => VSeq kept end in
+                            match pl with
+                            | Some pl' => match set_place fr2 pl' newv with Some fr3 => Some ((fr3, out2), VUnit) | None => None end
+                            | None => Some ((fr2, out2), VUnit)
+                            end
+                        | None => None end
+                  | None => None end
+              | None => None end
+          | _ => None end
+        else
         if String.eqb m "map_or" then
           (* Option::map_or(default, |x| body): the closure runs in the current frame *)
           match args with
@@ -801,8 +875,12 @@ Fixpoint eval_x (fuel : nat) (s : st) (e : rx) {struct fuel} : option (st * rv) 
                 (* Some(x) of something that is not an item, read from a place inside self: x names the payload, it is not a copy *)
                 if String.eqb c "Some" then
                   match place_of e' with
-                  | Some (None, p0) => run_then [(x, VRef (cat p0 ["?"]))]
-                  | _ => generic
+                  | Some pl =>
+                      match self_path fr' pl with
+                      | Some p0 => run_then [(x, VRef (cat p0 ["?"]))]
+                      | None => generic
+                      end
+                  | None => generic
                   end
                 else generic
             | VOptItem o, PCtor c [p1] =>
